@@ -80,6 +80,12 @@ def step (st : St) (line : String) : St × String :=
     | some es =>
       let r := st.newSpaceModule kw (pathOf parent) name ((csv bases).map pathOf) es
       (r.1, if r.2 then "acc" else "rej")
+  | ["spacemodulechecked", parent, name, bases, es] =>
+    match refsOf es with
+    | none => (st, "bad-op")
+    | some es =>
+      let r := st.newSpaceModuleCheckedStep kw (pathOf parent) name ((csv bases).map pathOf) es
+      (r.1, if r.2 then "acc" else "rej")
   | toks =>
     match parseOp toks with
     | none => (st, "bad-op")
